@@ -251,6 +251,10 @@ class CrystalMap:
             self._phases = PhaseList(ids=unique_phase_ids)
         else:
             phase_list = phase_list.deepcopy()
+            # A "not_indexed" entry is (re-)created below from the data and
+            # must not be linked to a phase ID of an indexed phase
+            if -1 in phase_list.ids:
+                del phase_list[-1]
             phase_ids = phase_list.ids
             n_different = len(phase_ids) - len(unique_phase_ids)
             if n_different > 0:
